@@ -820,6 +820,12 @@ def request_tax1099(args: ArgsType) -> None:
 
     print(response.decode())
 
+    if args["write"]:
+        write_config(args)
+
+    if args["savepass"]:
+        save_passwd(args, password)
+
 
 ###############################################################################
 # ARGUMENT/CONFIG HANDLERS
